@@ -10,3 +10,7 @@ import SradModel.Props.C09
 import SradModel.Props.C10
 import SradModel.Props.C19
 import SradModel.Props.C18
+import SradModel.Model.Admit
+import SradModel.Model.AdmitSpec
+import SradModel.Props.C14
+import SradModel.Props.C07
